@@ -602,7 +602,8 @@ def r10_no_name_reparse(ctx):
                 cfg = cfg or cfg_of(f.node)
                 st = enclosing_stmt(c)
                 node = cfg.node_of(st)
-                pc = path_condition(cfg, node.id, keep=lambda t, nn: ".kind" in t) if node is not None else ((), frozenset())
+                from ..util import ifexp_guards
+                pc = path_condition(cfg, node.id, keep=lambda t, nn: ".kind" in t, extra=ifexp_guards(c, st)) if node is not None else ((), frozenset())
                 ok = bool(pc[0])
                 ctx.ob("R10", f, f"`{txt(c)[:60]}` is applied to dtypes with a parseable name only", ok,
                        f"guarded by {show_condition(pc)}" if ok else
